@@ -2,7 +2,9 @@
 """Independent DEFLATE oracle for C12 (CPython's zlib, not Go's compress/flate).
 
 serve: line protocol on stdin/stdout
-  inflate <hex>                      -> ok <hex of inflated bytes> <hex of unused trailing data> | err <message>
+  inflate <hex>                      -> ok <hex of inflated bytes> <hex of unused trailing data> <end> | err <message>
+      end = final (a BFINAL=1 block ended the stream) | boundary (the input ends exactly on a block boundary: a final
+      empty stored block fed to a COPY of the decoder ends the stream) | midblock (it ends inside a block)
   deflate <level> <strategy> <memlevel> <final> <chunk>...
       chunk = <hex>:<f>  (f = 0 no flush, 1 Z_SYNC_FLUSH, 2 Z_FULL_FLUSH after the chunk)
       final = 1 Z_SYNC_FLUSH | 2 Z_FULL_FLUSH | 4 Z_FINISH (a BFINAL=1 block, RFC 7692 7.2.3.4) at the end
@@ -17,7 +19,16 @@ FL = {0: None, 1: zlib.Z_SYNC_FLUSH, 2: zlib.Z_FULL_FLUSH, 4: zlib.Z_FINISH}
 def inflate(data):
     d = zlib.decompressobj(-15)
     out = d.decompress(data)
-    return out, d.unused_data
+    if d.eof:
+        end = "final"
+    else:
+        probe = d.copy()
+        try:
+            extra = probe.decompress(b"\x01\x00\x00\xff\xff")
+            end = "boundary" if probe.eof and not extra else "midblock"
+        except zlib.error:
+            end = "midblock"
+    return out, d.unused_data, end
 
 
 def deflate(level, strategy, memlevel, final, chunks):
@@ -38,8 +49,8 @@ def handle(line):
     try:
         if parts[0] == "inflate":
             data = binascii.unhexlify(parts[1]) if len(parts) > 1 else b""
-            out, unused = inflate(data)
-            return "ok %s %s" % (binascii.hexlify(out).decode() or "-", binascii.hexlify(unused).decode() or "-")
+            out, unused, end = inflate(data)
+            return "ok %s %s %s" % (binascii.hexlify(out).decode() or "-", binascii.hexlify(unused).decode() or "-", end)
         if parts[0] == "deflate":
             level, strategy, memlevel, final = map(int, parts[1:5])
             chunks = []
@@ -57,8 +68,11 @@ def main():
     if len(sys.argv) > 1 and sys.argv[1] == "selftest":
         raw = deflate(6, 0, 8, 1, [(b"hello hello hello", 0)])
         assert raw.endswith(b"\x00\x00\xff\xff"), raw
-        out, _ = inflate(raw)
-        assert out == b"hello hello hello"
+        out, _, end = inflate(raw)
+        assert out == b"hello hello hello" and end == "boundary", end
+        assert inflate(b"\x00\x00\xff\xff")[2] == "midblock"
+        assert inflate(b"\x01\x00\x00\xff\xff")[2] == "final"
+        assert inflate(b"\x00\x00\x00\xff\xff")[2] == "boundary"
         print("selftest ok, zlib", zlib.ZLIB_RUNTIME_VERSION)
         return
     for line in sys.stdin:
